@@ -2,6 +2,7 @@
 //! Every subcommand reads/writes NDJSON or a JSON report; see /verif/DESIGN.md §3.
 mod complete;
 mod def;
+mod gen;
 mod help;
 mod hist;
 mod lex;
@@ -53,6 +54,8 @@ fn main() {
         "help-show" => help::help_show(&arg(&args, "--defs", ""), &arg(&args, "--label", ""), &arg(&args, "--path", ""), &arg(&args, "--mode", "short"), arg(&args, "--w", "0").parse().unwrap()),
         "complete-replay" => complete::complete_replay(&arg(&args, "--defs", ""), &input, &out, &div),
         "man-replay" => man::man_replay(&input, &out, &div),
+        "gen-replay" => gen::gen_replay(&arg(&args, "--defs", ""), &input, &out, &div, &arg(&args, "--work", "/tmp/vh-gen")),
+        "gen-show" => gen::gen_show(&arg(&args, "--defs", ""), &arg(&args, "--label", ""), &arg(&args, "--shell", "bash")),
         "c04-record" => values::c04_record(seed, n, &out),
         "c20-replay" => wrap::c20_replay(&input, &out, &div),
         "c20-record" => wrap::c20_record(seed, n, arg(&args, "--maxlen", "120").parse().unwrap(), &out),
